@@ -47,8 +47,9 @@ def run_c13_ble(case, R):
         w = BleWorld(loop, k=case.get("k", 0), att_payload=case.get("att", 155))
         try:
             p = w.pairing
-            events = []
-            p.dispatcher_connect(lambda ev: events.append(dict(ev)))
+            from props._listeners import attach as attach_listeners, check_same as listeners_agree
+            logs = attach_listeners(p)
+            events = logs[0]
             for iid, s in zip(ids, statuses):
                 if "tw" in FORMATS[iid][2] and s and case.get("fail_exec"):
                     w.acc.chars[iid]["exec_status"] = s
@@ -64,11 +65,13 @@ def run_c13_ble(case, R):
                 R.fail("C13.write-raises", f"BLE write {ids} statuses {statuses}: {type(e).__name__}: {e}", exc=type(e).__name__)
                 return
             await vtime.settle(loop)
+            what = f"BLE write {ids} statuses {statuses} values {values}"
+            if not listeners_agree(R, logs, what):
+                return
             notified = {}
             for ev in events:
                 for key, val in ev.items():
                     notified.setdefault(key[1], []).append(val)
-            what = f"BLE write {ids} statuses {statuses} values {values}"
             first_rej = next((i for i, (iid, s) in enumerate(zip(ids, statuses)) if s != 0 and iid in WRITABLE), None)
             if first_rej is None:
                 if raised is not None:
